@@ -18,6 +18,10 @@ PROVED IN FULL (no well-formedness hypothesis):
                                                    behaves as if the refused call had not happened)
   * `free_never_asks_for_memory`, `realloc_copy` — glue facts of the entry points
   * `wf_init`
+PROVED FROM `WF` OF THE STATE BEFORE THE CALL (a genuine step theorem):
+  * `alloc_fresh_from_pre` — a malloc (alignment ≤ 16) that needs no OS call takes its memory from a
+    chunk that was free and at least as large as the padded request, so the new block overlaps no
+    previously live block
 PROVED FROM `WF` OF A STATE (`WF` is evaluated by the driver on every state of every explored
 history — a hypothesis checked by the correspondence; its inductiveness `wf_step` is NOT proved):
   * `wf_live_aligned_sized`, `wf_live_disjoint`, `wf_live_inside_segment`, `never_mmapped`,
@@ -32,6 +36,7 @@ FULL STATEMENT NOT PROVED (kept for the record):
 -/
 import TinyVerif.Proofs.DlPure
 import TinyVerif.Proofs.DlWF
+import TinyVerif.Proofs.DlVictim
 namespace TinyVerif.Dl
 
 /-! ## 1. pure_index_lemmas — about `Gen/DlmallocPure.lean` (re-checked against the Rust text on every run) -/
@@ -229,6 +234,18 @@ theorem free_ok_partial (hs hs' : Hist) (id : Nat) (os : List OsDir) (out : Out)
   obtain ⟨b, hb, hl⟩ := step_free_live h
   exact ⟨b, hb, hl, fun hwf _ h1 _ h2 hne => live_disjoint hwf h1 h2 hne⟩
 
+/-- **alloc_fresh** — a step theorem from `WF` of the state BEFORE the call: an ordinary-alignment
+`malloc` that makes no OS call returns memory carved out of a chunk that was free (taken from a small
+bin, a tree bin, `dv` or `top`, at least as large as the padded request), hence the new block
+overlaps no block that was live.  (With an OS call the new block lies in `top` of the old heap or in
+the fresh mapping, which the OS contract makes disjoint from every segment; over-aligned requests
+and realloc go through the same `inner_malloc` — these cases are covered by `alloc_ok_partial`.) -/
+theorem alloc_fresh_from_pre (hs hs' : Hist) (hwf : WF hs) (id size align : Nat) (os : List OsDir) (out : Out)
+    (h : hs.step (.malloc id size align) os = .ok (hs', out)) (hal : align ≤ MALLOC_ALIGNMENT)
+    (hp : out.ptr ≠ 0) (hnoos : hs'.st.evs = []) (hsz : 0 < size) :
+    ∀ b ∈ hs.live, out.ptr + size ≤ b.ptr ∨ b.ptr + b.size ≤ out.ptr :=
+  step_malloc_fresh hwf h hal hp hnoos hsz
+
 /-- **oom_null** (full): if the OS refused an mmap during an operation, the operation returned null,
 the allocator's state is exactly what it was before the call and the set of live blocks is
 unchanged — nothing is lost, and every later operation behaves as if the refused call had never
@@ -300,6 +317,15 @@ example : ∃ hs' out, demoState.step (.malloc 7 70000 4096) [.m none] = .ok (hs
   obtain ⟨v, hv, hp⟩ := ok_of_matchB (x := demoState.step (.malloc 7 70000 4096) [.m none])
     (p := fun v => refused v.1.st.evs) (by decide)
   exact ⟨v.1, v.2, hv, hp⟩
+
+set_option maxRecDepth 20000 in
+/-- hypotheses of `alloc_fresh_from_pre`: a request served from a tree bin without any OS call -/
+example : ∃ hs' out, demoState.step (.malloc 9 200 8) [] = .ok (hs', out) ∧ out.ptr ≠ 0 ∧ hs'.st.evs = [] ∧
+    WF demoState := by
+  obtain ⟨v, hv, hp⟩ := ok_of_matchB (x := demoState.step (.malloc 9 200 8) [])
+    (p := fun v => decide (v.2.ptr ≠ 0) && decide (v.1.st.evs = []) && wfb demoState) (by decide)
+  simp only [Bool.and_eq_true, decide_eq_true_eq] at hp
+  exact ⟨v.1, v.2, hv, hp.1.1, hp.1.2, hp.2⟩
 
 set_option maxRecDepth 20000 in
 example : ∃ hs' out, demoState.step (.free 1) [] = .ok (hs', out) ∧ WF hs' := by
